@@ -43,6 +43,8 @@ type sockSim struct {
 	closed    []int
 	recvFlags []int
 	sockets   int
+	fd        int // descriptor socket() answers with when fdSet (0, 1, 2 are legal descriptors)
+	fdSet     bool
 	// sendto(2) answers: a datagram whose 4-byte payload is a marker listed here is refused with
 	// the given errno (nothing reaches the wire); sendErrAt refuses the k-th call (0-based)
 	failMarkers map[uint32]error
@@ -67,6 +69,9 @@ func (s *sockSim) Socket(domain, typ, proto int) (int, error) {
 	s.mu.Lock()
 	defer s.mu.Unlock()
 	s.sockets++
+	if s.fdSet {
+		return s.fd, nil
+	}
 	return 7, nil
 }
 func (s *sockSim) Bind(fd int, sa syscall.Sockaddr) error { return nil }
@@ -305,6 +310,82 @@ func checkSend(r reporter, tier string) (evals, nontrivial int64) {
 	vsys.Install(s)
 	if err := c.Close(); err != nil || len(s.closed) != 1 || s.closed[0] != 7 {
 		r.rep("close", "Close returned %v and closed fds %v, want fd 7 once", err, s.closed)
+	}
+	return
+}
+
+// checkDescriptorsAndBuffers: (a) the socket may be ANY descriptor, 0 included (a daemon started with its standard
+// streams closed): Send frames and Receive returns as usual, Close closes that descriptor once; (b) the caller's
+// read buffer may start at any address (a sub-slice of a larger array) and kernel datagrams may fill it exactly:
+// what the kernel sent comes back unchanged, byte for byte.
+func checkDescriptorsAndBuffers(r reporter) (evals, nontrivial int64) {
+	kernel := &syscall.SockaddrNetlink{Family: syscall.AF_NETLINK, Pid: 0}
+	mkDatagram := func(n int) []byte {
+		b := make([]byte, n)
+		binary.LittleEndian.PutUint32(b[0:], uint32(n))
+		binary.LittleEndian.PutUint16(b[4:], 1300)
+		binary.LittleEndian.PutUint32(b[8:], 5)
+		for i := 16; i < n; i++ {
+			b[i] = byte(0x30 + i%70)
+		}
+		return b
+	}
+	for _, fd := range []int{0, 1, 2, 3, 7, 255, 1023, 65535} {
+		s := &sockSim{fd: fd, fdSet: true}
+		c, err := newClient(s, 0)
+		evals++
+		if err != nil {
+			r.rep("descriptor-new-client", "NewNetlinkClient failed when socket() answered descriptor %d: %v", fd, err)
+			continue
+		}
+		seq, err := c.Send(syscall.NetlinkMessage{Header: syscall.NlMsghdr{Type: 1000, Flags: 5}, Data: []byte{1, 2, 3, 4}})
+		if err != nil || len(s.sent) != 1 || s.sent[0].fd != fd || binary.LittleEndian.Uint32(s.sent[0].b[8:]) != seq {
+			r.rep("descriptor-send", "socket descriptor %d: Send returned (%d, %v), %d datagrams on the wire", fd, seq, err, len(s.sent))
+			continue
+		}
+		d := mkDatagram(64)
+		s.recvQ = append(s.recvQ, recvAnswer{b: d, from: kernel})
+		msgs, err := c.Receive(false, func(b []byte) ([]syscall.NetlinkMessage, error) {
+			return []syscall.NetlinkMessage{{Header: syscall.NlMsghdr{Type: binary.LittleEndian.Uint16(b[4:])}, Data: append([]byte{}, b[16:]...)}}, nil
+		})
+		if err != nil || len(msgs) != 1 || !bytes.Equal(msgs[0].Data, d[16:]) {
+			r.rep("descriptor-receive", "socket descriptor %d: Receive returned %d messages, err %v for a kernel datagram", fd, len(msgs), err)
+			continue
+		}
+		if err := c.Close(); err != nil || len(s.closed) != 1 || s.closed[0] != fd {
+			r.rep("descriptor-close", "socket descriptor %d: Close returned %v and closed %v", fd, err, s.closed)
+			continue
+		}
+		nontrivial++
+	}
+	for _, size := range []int{64, 256, 4096} {
+		for off := 0; off < 8; off++ {
+			for _, dl := range []int{size, size - 1, size - 4, size - 3, 16, 17} {
+				big := make([]byte, size+16)
+				buf := big[off : off+size : off+size]
+				s := &sockSim{}
+				vsys.Install(s)
+				c, err := libaudit.NewNetlinkClient(syscall.NETLINK_ROUTE, 0, buf, nil)
+				evals++
+				if err != nil {
+					r.rep("buffer-new-client", "NewNetlinkClient with a %d-byte caller buffer at offset %d of its array failed: %v", size, off, err)
+					continue
+				}
+				d := mkDatagram(dl)
+				s.recvQ = append(s.recvQ, recvAnswer{b: d, from: kernel})
+				var got []byte
+				_, err = c.Receive(false, func(b []byte) ([]syscall.NetlinkMessage, error) {
+					got = append([]byte{}, b...)
+					return nil, nil
+				})
+				if err != nil || !bytes.Equal(got, d) {
+					r.rep("buffer-receive", "caller buffer of %d bytes starting at offset %d of its array (address mod 8 = %d), kernel datagram of %d bytes: Receive handed the parser %d bytes (err %v), want the datagram unchanged", size, off, off, dl, len(got), err)
+					continue
+				}
+				nontrivial++
+				_ = c.Close()
+			}
+		}
 	}
 	return
 }
@@ -915,6 +996,8 @@ func main() {
 	e1, n1 := checkSend(r, *tier)
 	e2, n2 := checkReceive(r, *tier)
 	e3, n3 := checkParser(r)
+	e4, n4 := checkDescriptorsAndBuffers(r)
+	e3, n3 = e3+e4, n3+n4
 	// concurrent Send
 	var schedules int64
 	for _, p := range sendPrograms(*tier) {
